@@ -1460,6 +1460,16 @@ fn session(ctx: &Ctx, kernel: &K) -> WorldResult {
                             }
                             return Ok(surf_n_term::TerminalAction::Quit(1));
                         }
+                        // an infinite wait only when something is on its way that must end it
+                        let wait = {
+                            let mut kk = k.borrow_mut();
+                            let coming = kk.events.values().any(|ev| matches!(ev, Ev::Wake | Ev::Input(_, "user"))) || !kk.in_queue.is_empty();
+                            coming && kk.src.chance(1, 3)
+                        };
+                        if wait {
+                            k.borrow_mut().src.probe("terminal-run-handler-waits");
+                            return Ok(surf_n_term::TerminalAction::Wait);
+                        }
                         Ok(surf_n_term::TerminalAction::Sleep(Duration::from_millis(3)))
                     })
                 });
